@@ -16,9 +16,11 @@ impl InfixFilter {
                 timestamp_from_ts_infix(infix, infix_format).is_ok()
             }
             InfixFilter::Numbrs => {
-                // 'r', followed by at least five digits, and nothing else
+                // 'r', followed by at least five digits that form a valid index, and nothing else
                 infix.strip_prefix('r').is_some_and(|digits| {
-                    digits.len() >= 5 && digits.bytes().all(|b| b.is_ascii_digit())
+                    digits.len() >= 5
+                        && digits.bytes().all(|b| b.is_ascii_digit())
+                        && digits.parse::<u32>().is_ok()
                 })
             }
             #[cfg(test)]
